@@ -104,16 +104,23 @@ Proof.
   destruct f1, f2, f3, f4, f5; simpl in *; congruence.
 Qed.
 
-(* scanDenseNodes: the whole outcome (objects AND the iterators it leaves) is independent of
-   the iterators it finds *)
-Theorem scan_dense_indep c p dc1 dc2 m q : scan_dense c p dc1 m q = scan_dense c p dc2 m q.
+(* scanDenseNodes: the objects (and the error class / panic) are independent of the iterators it
+   finds.  (The iterators it LEAVES are too, except on the no-nodes path, which returns before the
+   nil-ing and leaves the columns it did not see untouched - never read again before being
+   overwritten or niled, as this very theorem shows for the next call.) *)
+Definition snd_eq {A B} (x y : A * B) : Prop := snd x = snd y.
+
+Theorem scan_dense_indep c p dc1 dc2 m q : rrel snd_eq (scan_dense c p dc1 m q) (scan_dense c p dc2 m q).
 Proof.
   unfold scan_dense.
   assert (H : Rd (dc1, df0) (dc2, df0)) by (split; reflexivity).
   pose proof (dense_loop_indep m _ _ H) as Hl.
   destruct (dense_loop m (dc1, df0)) as [s1| |], (dense_loop m (dc2, df0)) as [s2| |];
     simpl in *; try contradiction; try congruence.
-  rewrite (dense_fixup_view s1 s2 Hl). reflexivity.
+  destruct Hl as [Hf Hv]. rewrite <- Hf.
+  destruct (dense_empty (snd s1)); [reflexivity|].
+  rewrite (dense_fixup_view s1 s2 (conj Hf Hv)).
+  apply rrel_refl. intros a. reflexivity.
 Qed.
 
 (* ---------- ways ---------- *)
@@ -239,8 +246,10 @@ Proof.
   destruct (fst f =? 1); [simpl; reflexivity|].
   destruct ((fst f =? 2) && negb (skip_nodes c)).
   { destruct (as_msg (snd f)) as [m| |]; simpl; auto.
-    rewrite (scan_dense_indep c p dc1 dc2 m q).
-    destruct (scan_dense c p dc2 m q) as [[dc' q']| |]; simpl; auto. repeat split. }
+    pose proof (scan_dense_indep c p dc1 dc2 m q) as Hs.
+    destruct (scan_dense c p dc1 m q) as [[dc1' q1']| |], (scan_dense c p dc2 m q) as [[dc2' q2']| |];
+      simpl in *; try contradiction; auto.
+    unfold snd_eq in Hs. simpl in Hs. subst q2'. repeat split. }
   destruct ((fst f =? 3) && negb (skip_ways c)).
   { destruct (as_msg (snd f)) as [m| |]; simpl; auto.
     pose proof (scan_way_indep p wc1 wc2 m w) as Hs.
